@@ -362,6 +362,7 @@ func C11(r *vf.Run) {
 	r.Sample(map[string]interface{}{"bus": "$808000", "pak": "$000000", "expect": "System.ROM[0]"})
 	r.Sample(map[string]interface{}{"bus": "$f00000", "pak": "$e00000", "expect": "System.SRAM[0]"})
 	r.Sample(map[string]interface{}{"bus": "$001fff", "pak": "$f51fff", "expect": "System.WRAM[0x1fff]"})
+	c11AccessesByInstruction(r, workers)
 	if r.Phase("long-lived-system") {
 		// one System that lives long: the host keeps swapping its own handler over windows of
 		// the register area (which the mapper assigns to no memory class), tens of thousands of Attach calls in all; the
